@@ -285,6 +285,21 @@ def correspond(ctx, scale):
                     dec, out = torch.where(zt, torch.zeros_like(dec), dec), torch.where(zt, torch.zeros_like(out), out)
             ok, why = close(dec, out, exact and mode == 'eval')
             nt += idx.unique().numel() >= 2
+            # other input precisions (projection-free FSQ / LFQ): the returned indices still decode to the returned output, rounded to that precision
+            if ok and exact and mode == 'eval' and name in ('fsq', 'lfq'):
+                for dt in (torch.float64, torch.bfloat16, torch.float16):
+                    try:
+                        with torch.no_grad():
+                            r2 = q(x.to(dt))
+                            o2, i2 = r2[0], r2[1]
+                            d2 = q.indices_to_codes(i2)
+                    except Exception:
+                        continue       # a precision the module rejects is not this property's subject
+                    bump('dtype-variants')
+                    # float64 inputs are quantized in float64 while the decoder builds float32 codes: equal to float32 precision, not bit-equal
+                    if not (torch.allclose(d2.double(), o2.double(), atol=1e-6, rtol=0) if dt == torch.float64 else torch.equal(d2.to(o2.dtype), o2)):
+                        fail(f'{name}:dtype={str(dt).split(".")[-1]}:mismatch', f'{name} ({lay}) with {dt} input: indices_to_codes(indices) rounded to the output precision differs from the output by '
+                             f'{(d2.to(o2.dtype).float() - o2.float()).abs().max().item():g}', dict(name=name, layout=lay, dtype=str(dt)))
             if not ok:
                 fail(key + ':mismatch', f'{name} ({lay}, {mode}): indices_to_codes(indices) != output: {why}', dict(name=name, layout=lay, mode=mode))
     bad, broken = core.run_cases(ctx, 'c02', HEADER, cases, per_file=40)
